@@ -5,10 +5,19 @@
 //!   fs-reuse-availability   for every lookup of the history: when the timing model says that a
 //!                           server scripted to answer THIS lookup on a fresh connection is reached
 //!                           within 80 % of the timeout, the lookup returns a genuine answer.
-//!                           Signature `<event class>|<transport>|<outcome>`: class of the latest
-//!                           event scripted on the server the model expects to answer (`none` if
-//!                           there was none), that server's flavour (tcp / udp-tc-tcp / ...), what
-//!                           came back instead.
+//!                           A violating history is MINIMIZED first (`minimize`: cut after the
+//!                           lookup; greedily drop events, earlier lookups, replace a server by one
+//!                           that refuses connections, drop the UDP port of a UDP+TCP server, drop
+//!                           the other server, plainest strategy / concurrency — as long as some
+//!                           lookup still violates the clause with the same outcome kind) and
+//!                           reported on the minimized case. Signature
+//!                           `<event class>|<transport>|<outcome>`: OBSERVED class(es) of the dead
+//!                           connection(s) that matter for the lookup (`observed_classes`:
+//!                           idle-closed | write-fails | no-reply | partial |
+//!                           closed-with-request-outstanding | udp-send-reset | udp-send-other,
+//!                           joined by `+`; `none`), flavour of the server that should have answered
+//!                           (tcp / udp-tc-tcp / ...), what came back instead (err-Timeout,
+//!                           err-Message, err-Busy, nx-untrusted, ...).
 //!   fs-dead-connection-reused   a TCP stream whose script already TOLD hickory that it is dead (a
 //!                           read returned EOF / ConnectionReset, a write returned an error) is not
 //!                           written to again during the lookup in which that happened.
@@ -30,7 +39,12 @@
 //!     way, which healthy server wins, what error is reported when nothing answers);
 //!   * how a dead pooled connection is replaced (at once, or after the pool's busy back-off — the
 //!     SLACK_MS allowance covers the whole back-off schedule 20+40+80+160 ms);
-//!   * a write on a dead stream in a LATER lookup than the one in which hickory was told (counted);
+//!   * a write on a dead stream in a LATER lookup than the one in which hickory was told (counted).
+//!     NB: in the unchanged connection stack the connection task (`DnsExchangeBackground`) exits on
+//!     the first stream error / EOF, so no second write can reach the socket at all — the clause is a
+//!     guard for a changed stack; defects of the reconnect-once logic surface as
+//!     fs-reuse-availability (the retry on the dead handle reports `Busy`, the server is deferred
+//!     behind the others and a silent one eats the budget);
 //!   * QueryStatistics with ≥ 2 servers is not generated (SRTTs are measured on the real clock).
 
 use std::collections::BTreeSet;
